@@ -74,6 +74,7 @@ func VerifC15Import(shape int) {
 	cl := &Loader{imports: map[string]bool{}, dir: "/p"}
 	_, err := cl.load("/p/root.yaml")
 	rt.Observe("import-shape", shape)
+	rt.Assert(true, "C15.loading-ended-without-a-crash")
 	if err != nil {
 		rt.Cover("C15.import-shape-rejected-with-an-error")
 	} else {
@@ -133,6 +134,7 @@ func VerifC15Build(shape int) {
 	}
 	rt.Observe("definition-shape", shape)
 	_, err := buildFromDefinition(def, &loaderContext{Dir: "/proj"})
+	rt.Assert(true, "C15.building-ended-without-a-crash")
 	if err != nil {
 		rt.Cover("C15.odd-definition-rejected-with-an-error")
 	} else {
@@ -176,6 +178,7 @@ func VerifC15EnvFile(l0, l1 int) {
 	rt.Observe("line.1", c15Lines[1])
 	def := &taskDefinition{Name: "t", Command: []string{"true"}, EnvFile: "vars.env"}
 	_, err := buildTask(def, &loaderContext{Dir: "/proj"})
+	rt.Assert(true, "C15.env-file-read-ended-without-a-crash")
 	if err != nil {
 		rt.Cover("C15.env-file-rejected-with-an-error")
 	} else {
